@@ -330,8 +330,9 @@ class EditStream(HTMLHandlerBase):
         current_stream.timing_reference = None
         timing_reference = params.get('timing_ref', '')
         if timing_reference != '':
-            mf = models.MediaFile.get(name=Path(timing_reference).stem)
-            if not mf:
+            mf = models.MediaFile.get(
+                name=Path(timing_reference).stem, stream_pk=current_stream.pk)
+            if not mf or mf.representation is None:
                 return flask.make_response(
                     f'Invalid timing_reference "{html.escape(timing_reference)}"', 400)
             current_stream.set_timing_reference(mf.as_stream_timing_reference())
